@@ -157,8 +157,8 @@ class FlowSampleRepresentation:
         # the resampling path rounds sample coordinates to 12 decimals, so the symbolic values differ from the exact ones by
         # ~1e-12: the value clause is evaluated numerically (bounded); the symbolic run proves success, frame and shape
         K.ensure("shape", E.bconst(tuple(r.shape) == (1, 2, 5, 7)), text="the field is resampled on the new grid", kind="helper")
-        if K.mode == "conc":
-            K.ensure_eq("resampled", got_cc, want_cc, text=Q10O + " [resampling the field on another grid: data resampled and vectors re-expressed in the new grid's axes]")
+        if True:
+            K.ensure_close("resampled", got_cc, want_cc, text=Q10O + " [resampling the field on another grid: data resampled and vectors re-expressed in the new grid's axes]")
 
 
 @register
